@@ -20,5 +20,19 @@ let handle = function
         | PBody None -> "bNONE" | PBody (Some b) -> "b" ^ hex_of_bytes b | PError -> "error") (parse_message (bytes_of_hex text)))
   | ["tree"; es] -> let e = entries es in hex_of_bytes (serialize_tree e) ^ " " ^ (if tree_sorted e then "sorted" else "unsorted")
   | ["dec"; n] -> hex_of_bytes (dec (z_of_hexint n))
+  | ["tzfmt"; off; neg] ->
+      (* offset ([-]hex) and the "-0000" flag -> the text, hex; "valueerror" for offsets that are no whole minutes *)
+      (match format_timezone (z_of_hexint off) (neg = "1") with Some t -> hex_of_bytes t | None -> "valueerror")
+  | ["tzparse"; t] ->
+      (match parse_timezone (if t = "_" then [] else bytes_of_hex t) with
+       | Some (o, n) -> hexint_of_z o ^ " " ^ (if n then "1" else "0") | None -> "valueerror")
+  | ["tefmt"; person; time; off; neg] ->
+      (match format_time_entry (bytes_of_hex person) (z_of_hexint time) (z_of_hexint off) (neg = "1") with
+       | Some v -> hex_of_bytes v | None -> "valueerror")
+  | ["teparse"; v] ->
+      (match parse_time_entry (if v = "_" then [] else bytes_of_hex v) with
+       | TNoDate x -> "nodate " ^ (if x = [] then "_" else hex_of_bytes x)
+       | TOk (p, t, o, n) -> Printf.sprintf "ok %s %s %s %s" (hex_of_bytes p) (hexint_of_z t) (hexint_of_z o) (if n then "1" else "0")
+       | TError -> "error")
   | _ -> "EXN bad request"
 let () = serve handle
